@@ -5,13 +5,30 @@ import FP.Basic
 import FP.Model.Dec
 namespace FP.Model
 
+/-- payload of a Date / DateTime / Time value (Go: a `time.Time` plus a layout).
+    `comps`: the components `getComponents()` yields on the path that compares component-wise —
+    Date [y,m,d] in the value's own location, DateTime [y,mo,d,h,mi,s·10⁹+ns] after `.UTC()`,
+    Time [h,mi,s·10⁹+ns];
+    `inst`: the instant `time.Equal/Before` compare, as its UTC tuple [y,mo,d,h,mi,s·10⁹+ns]
+    (modelling assumption about Go's time package: instants are ordered as these tuples are
+    ordered lexicographically);
+    `layout`: the Go layout string, whose precision is looked up in the regenerated maps. -/
+structure Tmp where
+  comps : List Int
+  inst : List Int
+  layout : String
+deriving DecidableEq, Repr
+
 inductive Val where
   | bool (b : Bool)
   | int (i : Int)                -- System.Integer (int32); always within range when produced by the model
   | dec (d : Dec)
   | str (s : List UInt8)         -- Go strings are byte sequences
   | quantity (d : Dec) (unit : List UInt8)
-  | other (tag : String)         -- anything the arithmetic/logic core treats opaquely (temporals are added by FP.Model.Temporal)
+  | date (t : Tmp)
+  | dateTime (t : Tmp)
+  | time (t : Tmp)
+  | other (tag : String)         -- anything the arithmetic/logic core treats opaquely
 deriving DecidableEq, Repr
 
 /-- `system.Normalize(from, to)`: implicit Integer→Decimal→Quantity promotion (types.go:143);
@@ -21,6 +38,7 @@ def normalize (frm to : Val) : Val :=
   | .int i, .dec _ => .dec (Dec.ofInt i)
   | .int i, .quantity _ u => .quantity (Dec.ofInt i) u
   | .dec d, .quantity _ u => .quantity d u
+  | .date t, .dateTime _ => .dateTime { t with comps := t.comps ++ [0, 0, 0], layout := t.layout ++ "T" }
   | v, _ => v
 
 end FP.Model
